@@ -257,6 +257,15 @@ func c16Triples(c *Ctx, n int) []c16Triple {
 			ts = append(ts, c16Triple{qc[0], schema, qc[1], "dotted-step-ids", nil})
 		}
 	}
+	// several dependencies that cannot be resolved, reachable from the current step: whichever is reported, it is the same one every time
+	{
+		schema := "input: {\n\tname: string\n\t_dependencies: []\n}\nprepare: {\n\tout: string\n\t_dependencies: [\"goneA\", \"goneB\"]\n}\nfetch: {\n\tout: string\n\t_dependencies: [\"removedEarlier\", \"prepare\", \"removedLater\", \"alsoGone\"]\n}\nreport: {\n\tout: string\n\t_dependencies: [\"fetch\"]\n}\n"
+		for rep := 0; rep < 6; rep++ {
+			for _, cp := range []string{"fetch", "report", "prepare"} {
+				ts = append(ts, c16Triple{"$.input.name", schema, cp, "several-broken-dependencies", nil}, c16Triple{"$.fetch.out", schema, cp, "several-broken-dependencies", nil})
+			}
+		}
+	}
 	// schemas that declare HIDDEN DEFINITIONS (`_#name`), at the root, inside a step and inside the element of a list: every struct whose
 	// fields get listed
 	{
